@@ -67,6 +67,35 @@ class VirtualLoop(asyncio.SelectorEventLoop):
         return True
 
 
+import itertools
+import os
+
+# Fake processes get pids above any real pid; os.kill / os.killpg on such a pid is routed to the
+# fake process, so the pool may signal the process or its process group, whichever way it likes.
+_FAKE_PIDS = itertools.count(2**30)
+_REGISTRY = {}
+_ORIG_KILL, _ORIG_KILLPG, _ORIG_GETPGID = os.kill, os.killpg, os.getpgid
+
+
+def _kill(pid, sig):
+    if pid in _REGISTRY:
+        return _REGISTRY[pid].send_signal(sig)
+    return _ORIG_KILL(pid, sig)
+
+
+def _killpg(pgid, sig):
+    if pgid in _REGISTRY:
+        return _REGISTRY[pgid].send_signal(sig)
+    return _ORIG_KILLPG(pgid, sig)
+
+
+def _getpgid(pid):
+    return pid if pid in _REGISTRY else _ORIG_GETPGID(pid)
+
+
+os.kill, os.killpg, os.getpgid = _kill, _killpg, _getpgid
+
+
 class FakeProc:
     """Stands in for asyncio.subprocess.Process."""
 
@@ -74,7 +103,8 @@ class FakeProc:
         self.loop = loop
         self.key = key
         self.returncode = None
-        self.pid = 40000 + hash(key) % 1000
+        self.pid = next(_FAKE_PIDS)
+        _REGISTRY[self.pid] = self
         self._out, self._err = stdout, stderr
         self._waiters = []
         self.signals = []
@@ -125,5 +155,8 @@ class FakeProc:
         self.exit(-15)
 
     def send_signal(self, sig):
-        self.signals.append(sig)
-        self.exit(-int(sig))
+        if self.returncode is not None:
+            raise ProcessLookupError(self.pid)
+        self.signals.append(int(sig))
+        if int(sig) != 0:
+            self.exit(-int(sig))
